@@ -21,11 +21,12 @@ CONFIG = {
              'spellings (relative to cwd, bytes, PathLike, //, /./, x/../, trailing /) vs genuinely different '
              'paths (sibling, case, NFC/NFD); the arguments each function received are compared type-exactly '
              'with the JSON round trip and checked for aliasing; pairs: ALL ordered pairs of values with <=2 '
-             'nodes over the 13 collision atoms (exhaustive layer, split over shards) + near-miss mutants of '
-             'random deeper values; evaluations = pairs judged; distinct_nontrivial = distinct pairs that are '
+             'nodes over the 13 collision atoms (exhaustive layer, split over shards) + output-guided pairs (the '
+             'library\'s own key encoding of a value re-read as the other container kinds with/without its leading '
+             'tag, values.mined_candidates) + near-miss mutants of random deeper values; evaluations = pairs judged; distinct_nontrivial = distinct pairs that are '
              'JSON-equal but not identical, or near-misses (Python-== / one-edit apart) that are not JSON-equal'),
     'exhaustive_layer': 'subbuild: (1) all ordered pairs of values with <=2 nodes over the 13 atoms as one positional argument; (2) all ordered pairs of (args, kwargs) shapes with <=2 positionals over {1,"a","0"} and keyword sets over keys {"a","0"} (args/kwargs boundary)',
-    'gates': ['cross_pairs_done', 'pairs_sb', 'pairs_bf', 'expected_hit', 'expected_miss', 'expected_dup', 'spelling_pairs',
+    'gates': ['mined_pairs', 'cross_pairs_done', 'pairs_sb', 'pairs_bf', 'expected_hit', 'expected_miss', 'expected_dup', 'spelling_pairs',
               'received_checked'],
 }
 
@@ -273,6 +274,41 @@ def run_shard(sh):
     sh.count('cross_pairs_done', done2)
     sh.count('cross_pairs_total', len(mine2))
     sh.exhaustive = sh.exhaustive and done2 == len(mine2)
+    # ---- output-guided layer: for sanitized values the library's own key encoding (JsonUtil.to_hashable,
+    #      what Cache.subbuild_key is built from) is re-read in every other plausible way
+    #      (values.mined_candidates): a collision through the encoding's own tags is constructed
+    from file_builder.json_util import JsonUtil
+    from ..values import mined_candidates
+    svals = [json.loads(json.dumps(v)) for v, size in sized_values(tuples=False, nonstr_keys=False) if size <= 3]
+    rng2 = random.Random(sh.seed * 31 + sh.idx)
+    mined = []
+    for v in rng2.sample(svals, min(len(svals), 40 if sh.tier == 'quick' else 400)):
+        for c in mined_candidates(JsonUtil.to_hashable, v, limit=12):
+            try:
+                json.dumps(c)
+            except (TypeError, ValueError):
+                continue
+            mined.append((v, c))
+    # the argument list and the keyword dict themselves re-read
+    for a, k in ((['x'], {}), (['a', 1], {}), ([], {'a': 1}), ([[1]], {'k': [2]}), (['k', 1], {'j': 2})):
+        for c in mined_candidates(JsonUtil.to_hashable, [a, k], limit=40):
+            if isinstance(c, list) and len(c) == 2 and isinstance(c[0], list) and isinstance(c[1], dict) \
+                    and all(isinstance(x, str) for x in c[1]):
+                mined.append(((a, k), (c[0], c[1])))
+    batch = []
+    for x, y in mined:
+        if sh.time_left() < (4 if sh.tier == 'quick' else 30):
+            break
+        if isinstance(x, tuple):
+            batch.append(Case('sb', x[0], x[1], y[0], y[1], tag='mined'))
+        else:
+            batch.append(Case('sb', [x], {}, [y], {}, tag='mined'))
+        sh.count('mined_pairs')
+        if len(batch) == BATCH:
+            run_batch(sh, batch, rng)
+            batch = []
+    if batch:
+        run_batch(sh, batch, rng)
     # ---- random deeper values, near misses, kwargs, build_file with spellings
     while sh.time_left() > 0:
         batch = []
